@@ -95,6 +95,43 @@ def _enc_real(sp, v):
 SCALES = [(1, 1000), (1, 100000), (1000, 1)]  # mass scale factors num/den of the scaled family
 
 
+ROLES = [None, (1, 2, 3), (2, 3, 1), (3, 1, 2), (2, 1, 3), (1, 3, 2), (3, 2, 1)]
+
+
+def _outputs_symbolic(s1, s2, masses, ovname, roles):
+    """The same point through a SYMBOLIC formulation: the functions are called with the conventional symbols sigma1..3, m0..3 -
+    particle `roles[k]` in call position k+1 (the Dalitz region in (sigma2, sigma3), ...) -, unfolded, and only then given
+    their values (all at once).  Three-body kinematics does not care which particle is called 1."""
+    sp, psm, ov = _impl()
+    # (plain symbols, as the documentation writes them)
+    sig = dict(zip((1, 2, 3), sp.symbols("sigma1:4")))
+    ms = dict(zip((0, 1, 2, 3), sp.symbols("m:4")))
+    a, b, c = roles
+    exc = ""
+    try:
+        s3 = psm.compute_third_mandelstam(s1, s2, *masses)   # (value of the third variable for the map; its own clause is judged numerically)
+    except Exception as e:  # noqa: BLE001
+        s3, exc = sp.zoo, f"compute_third_mandelstam:{type(e).__name__}"
+    vals = {sig[a]: s1, sig[b]: s2, sig[c]: s3, ms[0]: masses[0], ms[a]: masses[1], ms[b]: masses[2], ms[c]: masses[3]}
+    try:
+        s3sym = psm.compute_third_mandelstam(sig[a], sig[b], ms[0], ms[a], ms[b], ms[c])
+        s3v = sp.sympify(s3sym).subs(vals, simultaneous=True)
+    except Exception as e:  # noqa: BLE001
+        s3v, exc = sp.zoo, exc or f"compute_third_mandelstam:{type(e).__name__}"
+    try:
+        kib = psm.Kibble(sig[a], sig[b], sig[c], ms[0], ms[a], ms[b], ms[c]).doit().subs(vals, simultaneous=True)
+    except Exception as e:  # noqa: BLE001
+        kib, exc = sp.zoo, exc or f"Kibble:{type(e).__name__}"
+    o = sp.nan if ovname == "default" else ov[ovname]
+    try:
+        args = (sig[a], sig[b], ms[0], ms[a], ms[b], ms[c])
+        ind = psm.is_within_phasespace(*args) if ovname == "default" else psm.is_within_phasespace(*args, outside_value=o)
+        ind = ind.doit().subs(vals, simultaneous=True).doit()
+    except Exception as e:  # noqa: BLE001
+        ind, exc = sp.zoo, exc or f"is_within_phasespace:{type(e).__name__}"
+    return {"s3": _enc_real(sp, s3v), "kib": _enc_real(sp, kib), "ind": ps.enc_val(ind), "ov": ps.enc_val(o), "ovname": ovname, "sc": [1, 1], "exc": exc}
+
+
 def _outputs(s1, s2, masses, ovname, scale=(1, 1)):
     """Outputs of the implementation at the point scaled by lam = num/den (masses * lam, sigma * lam^2,
     exact rationals / surds).  sigma3 and Kibble are homogeneous (degree 2 and 8 in the masses) and are
@@ -140,14 +177,16 @@ def evaluate(job):
         scale = job[4] if len(job) > 4 else (1, 1)
         M, S = ps.invariants(ev)
         masses = [sp.sqrt(sp.Integer(x)) for x in M]
-        rec = {"k": "ev", "id": rid, "p": [list(p) for p in ev], "M": list(M), "s": [S[0], S[1]]}
-        rec.update(_outputs(sp.Integer(S[0]), sp.Integer(S[1]), masses, ovname, scale))
+        sym = job[5] if len(job) > 5 else 0
+        rec = {"k": "ev", "id": rid, "p": [list(p) for p in ev], "M": list(M), "s": [S[0], S[1]], "sym": sym}
+        rec.update(_outputs_symbolic(sp.Integer(S[0]), sp.Integer(S[1]), masses, ovname, ROLES[sym]) if sym else _outputs(sp.Integer(S[0]), sp.Integer(S[1]), masses, ovname, scale))
         return rec
     if fam == "box":
         m, s1, s2, ovname = job[2], job[3], job[4], job[5]
         scale = job[6] if len(job) > 6 else (1, 1)
-        rec = {"k": "box", "id": rid, "m": list(m), "s": [s1, s2]}
-        rec.update(_outputs(sp.Integer(s1), sp.Integer(s2), [sp.Integer(x) for x in m], ovname, scale))
+        sym = job[7] if len(job) > 7 else 0
+        rec = {"k": "box", "id": rid, "m": list(m), "s": [s1, s2], "sym": sym}
+        rec.update(_outputs_symbolic(sp.Integer(s1), sp.Integer(s2), [sp.Integer(x) for x in m], ovname, ROLES[sym]) if sym else _outputs(sp.Integer(s1), sp.Integer(s2), [sp.Integer(x) for x in m], ovname, scale))
         return rec
     if fam == "kal":
         a, d = job[2], job[3]
@@ -188,6 +227,13 @@ def build_jobs(tier: str, rng: random.Random) -> list[tuple]:
     for j in rng.sample(evs, min(len(evs), 1500 if tier == "thorough" else 240)):
         rid += 1
         jobs.append(("ev", rid, j[2], OV_NAMES[rid % len(OV_NAMES)], SCALES[rid % len(SCALES)]))
+    # symbolic family: the same points through a formulation in the conventional symbols with the particles in another role
+    for j in rng.sample(base, min(len(base), 3000 if tier == "thorough" else 300)):
+        rid += 1
+        jobs.append(("box", rid, j[2], j[3], j[4], OV_NAMES[rid % len(OV_NAMES)], (1, 1), 1 + rid % 6))
+    for j in rng.sample(evs, min(len(evs), 600 if tier == "thorough" else 90)):
+        rid += 1
+        jobs.append(("ev", rid, j[2], OV_NAMES[rid % len(OV_NAMES)], (1, 1), 1 + rid % 6))
     n = 2000 if tier == "thorough" else 250
     for _ in range(n):
         rid += 1
@@ -256,6 +302,8 @@ def confirm(clause: str, rec: dict) -> bool:
 def signature(clause: str, rec: dict, info) -> str:
     sig = _signature(clause, rec, info) + (f":raises({rec['exc']})" if rec.get("exc") else "")
     sc = rec.get("sc", [1, 1])
+    if rec.get("sym"):
+        sig += ":symbolic-formulation-with-roles-" + "".join(map(str, ROLES[rec["sym"]]))
     return sig if sc == [1, 1] else f"{sig}:at-mass-scale-x{sc[0]}/{sc[1]}"
 
 
@@ -277,7 +325,7 @@ def _signature(clause: str, rec: dict, info) -> str:
 
 
 VIOLATION_CLAUSES = {"Sigma3", "KibbleNonPositive", "IndicatorEvent", "IndicatorBox", "IndicatorRange", "KallenSymmetric", "KallenFactorises", "KallenValue"}
-NEEDED_STATS = ["ev", "ev_boundary", "ev_massless", "ev_equalmass", "box_inside", "box_outside", "box_on_boundary", "ov_nan", "ov_rational", "kal", "kaf", "scaled"]
+NEEDED_STATS = ["ev", "ev_boundary", "ev_massless", "ev_equalmass", "box_inside", "box_outside", "box_on_boundary", "ov_nan", "ov_rational", "kal", "kaf", "scaled", "symbolic"]
 
 
 def validate(records, par: int = 4, batch: int = 15000):
